@@ -1,4 +1,4 @@
-From C11 Require Import Gen Model Heap HeapA Iface Aligned.
+From C11 Require Import Gen Model Heap HeapA Iface Aligned GcRereg.
 Require Extraction.
 Require Import ExtrOcamlBasic.
 Extraction "model.ml"
@@ -8,4 +8,5 @@ Extraction "model.ml"
   mkhcfg heap_init_state hp_alloc hp_dealloc hp_deallocall hp_realloc heap_walk heap_start heap_end NODE_COOKIE w64
   ha_init_state ha_alloc ha_dealloc ha_deallocall ha_realloc
   i_xalloc i_alloc0 i_xalloc0 i_xrealloc i_realloc0 i_spanalloc i_spanalloc0 i_spandealloc i_spanrealloc i_spanrealloc0 i_new i_delete
-  mkgcfg aligned_init aligned_alloc aligned_dealloc aligned_realloc aligned_deallocall.
+  mkgcfg aligned_init aligned_alloc aligned_dealloc aligned_realloc aligned_deallocall
+  reregister_inplace lookup REREGISTER_SIZE_BEFORE_STEP.
